@@ -7,12 +7,16 @@ import os
 from . import tlc
 
 PROTO = {"C04", "C05", "C06", "C07", "C08", "C09", "C10"}
+WIRE = {"C01", "C02", "C03"}
 
 
 def check(prop: str, tier: str, seed: int) -> int:
     if prop in PROTO:
         from . import checks_proto
         return checks_proto.check(prop, tier, seed)
+    if prop in WIRE:
+        from . import checks_wire
+        return checks_wire.check(prop, tier, seed)
     raise SystemExit(f"no check registered for {prop}")
 
 
@@ -41,4 +45,7 @@ def replay(prop: str, path: str) -> int:
         for v in run.violations:
             print(f"VIOLATION property={prop} replay={path} clause={v['clause']}")
         return 1 if run.violations else 0
+    if "case" in rp:
+        from . import checks_wire
+        return checks_wire.replay_case(prop, obj)
     raise SystemExit("unknown replay format")
